@@ -187,13 +187,12 @@ def execute(case):
     reads = clock.sites
     values = [1000.0 + (i + 1) * clock.tick + (clock.jump if clock.expire_at is not None and (i + 1) >= clock.expire_at else 0.0)
               for i in range(len(reads))]
-    t_start = None
+    i_start = R.deadline_start_index(clock)
+    t_start = values[i_start] if i_start is not None else None
     expired = []
-    for chain, v in zip(reads, values):
-        if t_start is None and len(chain) > 2 and chain[0] == "__init__" and chain[1] == "__init__" and chain[2] == "solve":
-            t_start = v
+    for i, (chain, v) in enumerate(zip(reads, values)):
         if "reached_time_limit" in chain:
-            expired.append((v - t_start) >= 1.0 if t_start is not None else False)
+            expired.append((v - t_start) >= 1.0 if t_start is not None and i > i_start else False)
 
     # run the model with the same answers
     M = LoopModel(start, case.get("lamb_init", 1.0), case.get("rho", 1e-2), lamb_max, limit, E.classify)
